@@ -23,7 +23,7 @@ from vf.util import Rng, split_seeds, spec_seeds, replay_spec, short
 ID = 'C01'
 LEVEL = 'fault_enumeration'
 TECHNIQUE = 'differential runtime monitor (bare vs agent) + escape monitor + line-level fault enumeration inside the trace handler via sys.monitoring hand-off'
-RULE = ('differential: generated programs (38 shapes incl. threads - also lock-step and a thread census -, generators, raising dunders, a seeded random generator, the traceback of a caught exception, a kept locals() dictionary, finalizers) x generated tracepoint '
+RULE = ('differential: generated programs (40 shapes incl. coroutines driven by hand and by an asyncio event loop - tasks, cancellation, async generators / with -, threads - also lock-step and a thread census -, generators, raising dunders, a seeded random generator, the traceback of a caught exception, a kept locals() dictionary, finalizers) x generated tracepoint '
         'sets (all action kinds, watches / conditions / log templates that fail or are malformed, expressions that '
         'touch values whose str()/attribute access raise incl. SystemExit, raising plugins, failing push); fault '
         'enumeration: for seeded (frame, tracepoint-set) pairs every distinct (file, line) of deep/ code executed in a '
@@ -35,7 +35,7 @@ ASSUMPTIONS = ['programs do not observe addresses, time, the recursion limit or 
                '<= 3.12 keeps the frame.f_locals snapshot (and so a value removed with del) alive until the frame ends',
                'a fault inside the handler\'s own last-resort except block is a double fault and out of scope',
                'fault enumeration uses single-threaded hosts (the per-thread pending store is keyed by thread id)']
-REQUIRE = {'programs_compared': 150, 'actions_attempted': 1500, 'raw_runs': 100, 'thread_end_probes': 30,
+REQUIRE = {'programs_with_coroutines': 15, 'programs_compared': 150, 'actions_attempted': 1500, 'raw_runs': 100, 'thread_end_probes': 30,
            'fault_sites': 300, 'faults_injected': 300}
 SHARD_TIMEOUT = {'quick': 400, 'thorough': 2400}
 
@@ -229,6 +229,8 @@ def case_diff(seed, out, spec, wd):
                     break
         rig.cleanup()
     out.count('programs_compared')
+    if any(x in ('coro_manual', 'asyncio_tasks') for x in prog.shapes):
+        out.count('programs_with_coroutines')
     out.count('actions_attempted', attempted)
     out.case({'shapes': prog.shapes, 'calls': prog.calls, 'tps': desc, 'pf': push_fail},
              nontrivial=attempted > 0, sample={'shapes': prog.shapes, 'tracepoints': desc[:4], 'push_fail': push_fail,
